@@ -251,12 +251,7 @@ class C03(Prop):
     async def _slow_reply(self, acc):
         """The device takes its time: the event loop's clock jumps 30 s ahead (virtual delay, no real waiting) and the loop
         gets a few turns, so that any timer the client armed around its read has fired before the reply is sent."""
-        loop = asyncio.get_running_loop()
-        if not hasattr(loop, "_vf_offset"):
-            loop._vf_offset = 0.0
-            real = loop.time
-            loop.time = lambda: real() + loop._vf_offset
-        loop._vf_offset += 30.0
+        env.idle(30.0)
         for _ in range(4):
             await asyncio.sleep(0)
         acc.count("replies_delayed_30s_virtual")
@@ -389,6 +384,20 @@ class C03(Prop):
         if (len(clients) == 2 and len(choice_log) > 6 and len(acc.samples) < 3) or (case.get("exhaustive") and len(acc.samples) < 1):
             acc.sample({"instances": [{"type": c["type"], "id": c["id"], "key": c["key"], "ops": [s["kind"] for s in c["steps"]]} for c in case["clients"]],
                         "release_order": "".join(choice_log)})
+
+
+    def thread_pairs(self, ctx):
+        from ..monitors.threadops import api_pair
+
+        clock.set_zone("UTC")
+        a = {"type": 1, "id": "a1a1a1", "key": "18", "op": "turn_on", "args": {"minutes": 0}}
+        b = {"type": 2, "id": "b2b2b2", "key": "27", "op": "get_shutter_state", "args": {}, "family": "shutter"}
+        c = {"type": 2, "id": "c3c3c3", "key": "31", "op": "control_breeze", "args": {"state": "ON", "mode": "COOL", "target": 24}, "remote": self.remotes["ordinary"]}
+        d = {"type": 1, "id": "d4d4d4", "key": "42", "op": "get_schedules", "args": {}}
+        rep = {"temp_tenths": 250, "state": "OFF", "mode": "HEAT", "target": 21, "fan": "LOW", "swing": "OFF", "remote_id": "ELEC7001"}
+        return [api_pair("control_device (instance A, one thread) || get_shutter_state (instance B, another thread)", a, b),
+                api_pair("control_breeze_device || control_device", c, a, thermostat=rep),
+                api_pair("get_schedules || control_breeze_device", d, c, thermostat=rep)]
 
 
 PROP = C03()
